@@ -9,7 +9,26 @@ const MUTS: &[&str] = &[
     "dup_var", "dup_op_name", "dup_frag_name", "anon_plus_named", "var_non_input", "var_unknown_type",
     "var_bad_default", "upload_in_query", "sub_two_roots", "sub_typename", "op_directive", "frag_directive",
     "var_value_bad", "var_missing", "input_obj_scalar", "enum_string", "var_in_frag_undefined", "list_var_nested",
+    "unknown_field_ifdef", "enum_default_string",
 ];
+
+/// the same constant with every enum token written as a string literal
+fn enums_as_strings(v: &V) -> V {
+    match v {
+        V::Enum(e) => V::Str(e.clone()),
+        V::List(xs) => V::List(xs.iter().map(enums_as_strings).collect()),
+        V::Obj(fs) => V::Obj(fs.iter().map(|(k, x)| (k.clone(), enums_as_strings(x))).collect()),
+        x => x.clone(),
+    }
+}
+fn has_enum(v: &V) -> bool {
+    match v {
+        V::Enum(_) => true,
+        V::List(xs) => xs.iter().any(has_enum),
+        V::Obj(fs) => fs.iter().any(|(_, x)| has_enum(x)),
+        _ => false,
+    }
+}
 
 struct G<'a> {
     sd: &'a SchemaD,
@@ -27,6 +46,9 @@ impl<'a> G<'a> {
     fn fresh(&mut self, p: &str) -> String {
         self.n += 1;
         format!("{p}{}", self.n)
+    }
+    fn has_ifdef(&self) -> bool {
+        self.sd.dirs.iter().any(|d| d.name == "ifdef")
     }
     fn want(&mut self, m: &str) -> bool {
         if !self.applied && self.mutation == m && self.rng.chance(1, 2) {
@@ -197,6 +219,26 @@ impl<'a> G<'a> {
             }
             self.applied = false;
         }
+        if self.allow_vars && (ty.base() == "Color" || ty.base() == "Pt") && self.want("enum_default_string") {
+            // a variable whose DEFAULT writes the name of an enum value as a string literal
+            // (`$v: Color = "RED"`, `[Color] = ["RED"]`, `Pt = {x: 1, cs: ["RED"]}`): fine as a
+            // supplied variable VALUE, not as a literal of the document (§5.6.1)
+            let mut c = self.const_nn(ty, 2);
+            for _ in 0..6 {
+                if has_enum(&c) {
+                    break;
+                }
+                c = self.const_nn(ty, 2);
+            }
+            if has_enum(&c) {
+                let d = enums_as_strings(&c);
+                let vty = if self.rng.chance(1, 2) { ty.nullable().clone() } else { ty.clone() };
+                let supply = if self.rng.chance(1, 3) { Some(c) } else { None };
+                let nm = self.declare(vty, Some(d), supply);
+                return V::Var(nm);
+            }
+            self.applied = false;
+        }
         if self.allow_vars && self.want("var_value_bad") {
             let b = self.bad_value(ty.nullable());
             if !matches!(b, V::Null) {
@@ -281,6 +323,10 @@ impl<'a> G<'a> {
                 ds.push(Dir { name: "tagged".into(), args: if self.rng.chance(1, 2) { vec![("label".into(), V::Str("t".into()))] } else { vec![] } });
             }
         }
+        if on_field && self.has_ifdef() && self.rng.chance(1, 6) {
+            // legal use of the user-defined directive of the second schema variant
+            ds.push(Dir { name: "ifdef".into(), args: vec![] });
+        }
         if self.want("unknown_directive") {
             ds.push(Dir { name: "nope".into(), args: vec![] });
         }
@@ -350,6 +396,13 @@ impl<'a> G<'a> {
         let mut dirs = self.directives(true);
         if self.want("unknown_field") {
             name = "nope".into();
+        }
+        if self.want("unknown_field_ifdef") {
+            // an unknown field carrying a directive called `ifdef` (defined only in the second schema variant)
+            name = "nope".into();
+            if !dirs.iter().any(|d| d.name == "ifdef") {
+                dirs.push(Dir { name: "ifdef".into(), args: vec![] });
+            }
         }
         if self.want("unknown_arg") {
             args.push(("zz".into(), V::Int(1)));
@@ -637,6 +690,37 @@ fn gen_op(sd: &SchemaD, rng: &mut Rng, opty: &str, name: Option<String>, mutatio
         }
         sels.push(Sel::Spread { name: a, dirs: vec![] });
     }
+    if opty == "query" && g.mutation == "enum_default_string" && !g.applied && g.allow_vars {
+        // no enum-typed position came up while generating: add one at the root
+        g.applied = true;
+        let color = |n: &str| TRef::Named(n.into());
+        let alias = Some(g.fresh("a"));
+        let (fname, args): (&str, Vec<(String, V)>) = match g.rng.below(5) {
+            0 => {
+                let nm = g.declare(color("Color"), Some(V::Str("RED".into())), None);
+                ("color", vec![("c".into(), V::Var(nm))])
+            }
+            1 => {
+                let sup = if g.rng.chance(1, 2) { Some(V::Enum("BLUE".into())) } else { None };
+                let nm = g.declare(TRef::NonNull(Box::new(color("Color"))), Some(V::Str("GREEN".into())), sup);
+                ("color", vec![("c".into(), V::Var(nm))])
+            }
+            2 => {
+                let nm = g.declare(TRef::List(Box::new(color("Color"))), Some(V::List(vec![V::Str("RED".into()), V::Enum("BLUE".into())])), None);
+                ("color", vec![("c".into(), V::Enum("RED".into())), ("cs".into(), V::Var(nm))])
+            }
+            3 => {
+                let nm = g.declare(color("Pt"), Some(V::Obj(vec![("x".into(), V::Int(1)), ("cs".into(), V::List(vec![V::Str("RED".into())]))])), None);
+                ("pt", vec![("p".into(), V::Var(nm))])
+            }
+            _ => {
+                // not even the name of a value: refused by everybody
+                let nm = g.declare(color("Color"), Some(V::Str("PURPLE".into())), None);
+                ("color", vec![("c".into(), V::Var(nm))])
+            }
+        };
+        sels.push(Sel::Field { alias, name: fname.into(), args, dirs: vec![], sels: vec![] });
+    }
     if g.want("unused_var") {
         g.declare(TRef::Named("Int".into()), None, Some(V::Int(1)));
     }
@@ -673,8 +757,12 @@ fn gen_op(sd: &SchemaD, rng: &mut Rng, opty: &str, name: Option<String>, mutatio
     (Op { ty: opty.into(), name, vars: g.vars, dirs, sels }, g.frags, g.supplied, applied)
 }
 
-fn gen_request(sd: &SchemaD, rng: &mut Rng, _i: usize, dist: &mut Dist) -> (Doc, Option<String>, Vec<(String, V)>) {
+/// `sd_plain` / `sd_ifdef`: the two schema variants; the last component of the result says which one was used
+fn gen_request(sd_plain: &SchemaD, sd_ifdef: &SchemaD, rng: &mut Rng, _i: usize, dist: &mut Dist) -> (Doc, Option<String>, Vec<(String, V)>, bool) {
     let mutation: &'static str = *rng.pick(MUTS);
+    let variant = if mutation == "unknown_field_ifdef" { rng.chance(3, 4) } else { rng.chance(1, 8) };
+    let sd = if variant { sd_ifdef } else { sd_plain };
+    dist.hit(if variant { "gen_schema_with_ifdef_directive" } else { "gen_schema_plain" });
     let opty = match rng.below(8) {
         0 => "mutation",
         1 => "subscription",
@@ -713,5 +801,5 @@ fn gen_request(sd: &SchemaD, rng: &mut Rng, _i: usize, dist: &mut Dist) -> (Doc,
         dist.hit("multi_op");
     }
     let opname = if multi && mutation != "anon_plus_named" { Some("Q1".to_string()) } else if rng.chance(1, 2) { name } else { None };
-    (Doc { ops, frags }, opname, supplied)
+    (Doc { ops, frags }, opname, supplied, variant)
 }
